@@ -1,5 +1,6 @@
 (* Property C07 — Eval computes the expression's value per row and leaves no trace of temporaries. *)
-From QF Require Import Base.Prelude Model.Frame Model.Filter Model.Ops Model.Eval Proofs.EvalProofs.
+From QF Require Import Base.Prelude Model.Frame Model.Filter Model.Ops Model.TableSpec Model.Eval Proofs.EvalProofs.
+From QF Require Import Corr.FrameCorr Proofs.EvalFullTemp Proofs.EvalFull Proofs.EvalFullNames Proofs.EvalFullDecode.
 Local Open Scope nat_scope.
 
 (* operands are applied in the order written: the decoded column-constant expression records on which side the
@@ -43,14 +44,132 @@ Theorem C07_sticky ut cx f dst e : ferr f = true -> eval ut cx f dst e = Ok f.
 Proof. exact (eval_sticky ut cx f dst e). Qed.
 Print Assumptions C07_sticky.
 
-(* the full statement — model = denotation for every well typed tree, no temporary survives, nothing else moves —
-   is decided per case by the frameops engine (Corr/FrameCorr.v: eval_oracle = tset_col of the denoted column);
-   it is not yet proved for all trees *)
+(* ------------------------------------------------------------------ no temporary column survives: every frame *)
+
+(* For EVERY frame (repeated column names, any physical layout), every evaluation context and every tree: a column
+   of the frame that Eval returns without error is a column of the original frame or the destination. *)
 Definition C07_full_statement : Prop :=
   forall ut cx f dst e g, ferr f = false -> eval ut cx f dst e = Ok g -> ferr g = false ->
     forall n, contains g n = true -> contains f n = true \/ n = dst.
 
-(* Non-vacuity / worked example: 10 - A on a frame whose index is reversed, destination shaped like a temporary *)
+Theorem C07_no_temporaries : C07_full_statement.
+Proof. exact eval_names. Qed.
+Print Assumptions C07_no_temporaries.
+
+(* ------------------------------------------------------------------ the denotational statement: every tree *)
+
+(* Premises (all computable, see C07_example_premises):
+   ctx_ok cx      the functions of the context are recorded tables (F1 for one argument, F2 for two) whose results have
+                  the declared type;
+   wf_frame f     equal physical column lengths, index in range, valid enum ranks (the row index may be ANY list of
+                  positions, repeated positions included);
+   names_ok f     column names pairwise different and not empty.  Needed: after Select("A","A") + Apply(dst "A") the
+                  two columns named A differ and Drop (= Select by name) replaces the first by the second;
+   expr_ok f e    constants are int/float/bool/string, and every column reference names a column of f or does NOT start
+                  with const-temp- / unary-temp- / colcol-temp-.  Needed: a reference to a missing column with such a
+                  name is captured by a live temporary instead of being reported (see the report);
+   the bound      columns + simultaneously live temporaries <= 10000 (tempColName panics beyond).
+   denote cx t e (Corr/FrameCorr.v) is the specification the frameops engine applies to the implementation: constants,
+   column references, unary/binary functions looked up by name and first operand type, operands in the order written.
+
+   eval_meets says: if the tree denotes (ty, cells) then Eval returns g without error, with the same index, well formed,
+   and abs g = tset_col t dst ty cells — dst replaced in its position or appended last, every other column with its
+   name, position, type and values, NO other column (Eval(dst, Col(dst)) returns the frame itself; an illegal dst gives
+   Err); if the tree is invalid (denote = None) Err is set — the model may fault instead only if a sub-tree is open;
+   if the denotation is open (a recorded table lacks an entry) the model faults. *)
+Definition C07_eval_statement : Prop :=
+  forall ut cx f dst e t,
+    ctx_ok cx = true -> wf_frame f = true -> ferr f = false -> names_ok f = true ->
+    expr_ok f e = true -> (N.of_nat (length (cols f) + temps_needed e) <= 10000)%N ->
+    abs f = Ok t ->
+    eval_meets (has_open cx t e = true) f t dst e (denote cx t e) (eval ut cx f dst e).
+
+Theorem C07_eval : C07_eval_statement.
+Proof. exact eval_full. Qed.
+Print Assumptions C07_eval.
+
+(* the three cases of C07_eval spelled out *)
+Theorem C07_eval_value ut cx f dst e t :
+  ctx_ok cx = true -> wf_frame f = true -> ferr f = false -> names_ok f = true ->
+  expr_ok f e = true -> (N.of_nat (length (cols f) + temps_needed e) <= 10000)%N ->
+  abs f = Ok t -> forall ty cs,
+  denote cx t e = Some (Some (ty, cs)) -> is_col_ref e dst = false -> check_name dst = true ->
+  exists g, eval ut cx f dst e = Ok g /\ ferr g = false /\ ix g = ix f /\ wf_frame g = true
+            /\ abs g = Ok (tset_col t dst ty cs).
+Proof. exact (eval_value ut cx f dst e t). Qed.
+Print Assumptions C07_eval_value.
+
+Theorem C07_eval_error ut cx f dst e t :
+  ctx_ok cx = true -> wf_frame f = true -> ferr f = false -> names_ok f = true ->
+  expr_ok f e = true -> (N.of_nat (length (cols f) + temps_needed e) <= 10000)%N ->
+  abs f = Ok t ->
+  denote cx t e = None -> has_open cx t e = false ->
+  exists g, eval ut cx f dst e = Ok g /\ ferr g = true.
+Proof. exact (eval_error ut cx f dst e t). Qed.
+Print Assumptions C07_eval_error.
+
+Theorem C07_eval_bad_dst ut cx f dst e t :
+  ctx_ok cx = true -> wf_frame f = true -> ferr f = false -> names_ok f = true ->
+  expr_ok f e = true -> (N.of_nat (length (cols f) + temps_needed e) <= 10000)%N ->
+  abs f = Ok t -> forall ty cs,
+  denote cx t e = Some (Some (ty, cs)) -> is_col_ref e dst = false -> check_name dst = false ->
+  exists g, eval ut cx f dst e = Ok g /\ ferr g = true.
+Proof. exact (eval_bad_dst ut cx f dst e t). Qed.
+Print Assumptions C07_eval_bad_dst.
+
+(* on the same domain, whatever the model returns passes the oracle the engine applies to the implementation: an
+   implementation result that equals the model's (code 1 = 0) satisfies the property (code 2 = 0) *)
+Theorem C07_model_meets_oracle ut cx f dst e t g :
+  ctx_ok cx = true -> wf_frame f = true -> ferr f = false -> names_ok f = true ->
+  expr_ok f e = true -> (N.of_nat (length (cols f) + temps_needed e) <= 10000)%N ->
+  abs f = Ok t -> eval ut cx f dst e = Ok g -> eval_oracle f cx dst e g = 0%N.
+Proof. exact (model_meets_oracle ut cx f dst e t g). Qed.
+Print Assumptions C07_model_meets_oracle.
+
+(* temporaries: fresh, legal, shaped like temporaries; the search cannot run out below 10000 columns *)
+Theorem C07_temp_name f prefix name :
+  temp_prefix prefix -> temp_col_name f prefix = Ok name ->
+  contains f name = false /\ temp_like name = true /\ check_name name = true /\ name <> [].
+Proof. exact (temp_name_spec f prefix name). Qed.
+Print Assumptions C07_temp_name.
+
+Theorem C07_temp_total f prefix :
+  (N.of_nat (length (cols f)) < 10000)%N -> exists name, temp_col_name f prefix = Ok name.
+Proof. exact (temp_name_total f prefix). Qed.
+Print Assumptions C07_temp_total.
+
+(* ------------------------------------------------------------------ decoding, at the level of the denotation *)
+
+(* whichever expression type newExpr picks for [op, a, b] (column-constant in either order, column-column, nested), the
+   decoded tree denotes op applied to the denotations of a and b IN THE ORDER WRITTEN (decodes x: newExpr x is not the
+   error expression) *)
+Theorem C07_decode_binary cx t op a b :
+  decodes a -> decodes b ->
+  denote cx t (new_expr (EList [EStr op; a; b])) = d_binary cx op (den cx t a) (den cx t b)
+  /\ decodes (EList [EStr op; a; b]).
+Proof. exact (decode_binary_den cx t op a b). Qed.
+Print Assumptions C07_decode_binary.
+
+Theorem C07_decode_unary cx t op a :
+  decodes a -> denote cx t (new_expr (EList [EStr op; a])) = d_unary cx op (den cx t a) /\ decodes (EList [EStr op; a]).
+Proof. exact (decode_unary_den cx t op a). Qed.
+Print Assumptions C07_decode_unary.
+
+(* Expr(name, a, b, c, ...) denotes the left fold (...((a name b) name c) ...) *)
+Theorem C07_expr_call_denotes cx t name a b rest :
+  Forall decodes (a :: b :: rest) ->
+  denote cx t (expr_call name (a :: b :: rest))
+  = fold_left (fun d x => d_binary cx name d (den cx t x)) rest (d_binary cx name (den cx t a) (den cx t b)).
+Proof. exact (expr_call_den cx t name a b rest). Qed.
+Print Assumptions C07_expr_call_denotes.
+
+Example C07_example_decodes :
+  Forall decodes [EConst (CInt 10); EColName [65%N]; EList [EStr [45%N]; EColName [66%N]; ENil]; EStr [120%N]].
+Proof. repeat constructor. Qed.
+
+(* ------------------------------------------------------------------ worked examples (non-vacuity) *)
+
+(* 10 - A on a frame whose index is reversed, destination shaped like a temporary *)
 Example C07_example :
   let f := mkFrame [([65%N], ICol [1; 2; 3]%Z)] [2; 1; 0] false in
   let minus := F2 TInt [(CInt 10, CInt 3, CInt 7); (CInt 10, CInt 2, CInt 8); (CInt 10, CInt 1, CInt 9)]%Z in
@@ -58,3 +177,77 @@ Example C07_example :
   eval [] cx f (bs 13 0x636f6c636f6c2d74656d702d30) (expr_call [45%N] [EConst (CInt 10); EColName [65%N]])
   = Ok (mkFrame [([65%N], ICol [1; 2; 3]%Z); (bs 13 0x636f6c636f6c2d74656d702d30, ICol [9; 8; 7]%Z)] [2; 1; 0] false).
 Proof. vm_compute. reflexivity. Qed.
+
+(* (10 - A) - B : three arguments fold from the left, constant on the left, two live temporaries, index reversed with a
+   repeated position, destination = a source column (replaced in place).  All premises of C07_eval hold, the tree
+   denotes a value, and the result is the tset_col table. *)
+Definition ex_f := mkFrame [([65%N], ICol [1; 2; 3]%Z); ([66%N], ICol [5; 6; 7]%Z)] [2; 1; 0; 1] false.
+Definition ex_minus := F2 TInt [(CInt 10, CInt 3, CInt 7); (CInt 10, CInt 2, CInt 8); (CInt 10, CInt 1, CInt 9);
+                                (CInt 7, CInt 7, CInt 0); (CInt 8, CInt 6, CInt 2); (CInt 9, CInt 5, CInt 4)]%Z.
+Definition ex_cx : ctx := [((TInt, true, [45%N]), ex_minus)].
+Definition ex_e := expr_call [45%N] [EConst (CInt 10); EColName [65%N]; EColName [66%N]].
+Definition ex_t := mkTable [[65%N]; [66%N]] [TInt; TInt]
+                           [[CInt 3; CInt 7]; [CInt 2; CInt 6]; [CInt 1; CInt 5]; [CInt 2; CInt 6]]%Z.
+
+Example C07_example_premises :
+  ex_e = XExpr2 [45%N] (XColConst [45%N] [65%N] (CInt 10) true) (XCol [66%N])
+  /\ ctx_ok ex_cx = true /\ wf_frame ex_f = true /\ ferr ex_f = false /\ names_ok ex_f = true
+  /\ expr_ok ex_f ex_e = true /\ (N.of_nat (length (cols ex_f) + temps_needed ex_e) <= 10000)%N
+  /\ abs ex_f = Ok ex_t
+  /\ denote ex_cx ex_t ex_e = Some (Some (TInt, [CInt 0; CInt 2; CInt 4; CInt 2]%Z))
+  /\ is_col_ref ex_e [65%N] = false /\ check_name [65%N] = true
+  /\ eval [] ex_cx ex_f [65%N] ex_e
+     = Ok (mkFrame [([65%N], ICol [4; 2; 0]%Z); ([66%N], ICol [5; 6; 7]%Z)] [2; 1; 0; 1] false).
+Proof. vm_compute. repeat split; try reflexivity; discriminate. Qed.
+
+(* an invalid tree: unknown column; no sub-tree is open; Err is set *)
+Example C07_example_error :
+  let e := expr_call [45%N] [EConst (CInt 10); EColName [65%N]; EColName [90%N]] in
+  expr_ok ex_f e = true /\ denote ex_cx ex_t e = None /\ has_open ex_cx ex_t e = false
+  /\ (exists g, eval [] ex_cx ex_f [67%N] e = Ok g /\ ferr g = true).
+Proof. vm_compute. repeat split; try reflexivity. eexists. split; reflexivity. Qed.
+
+(* why expr_ok is a premise: a reference to the MISSING column "colcol-temp-0" is captured by the temporary of the left
+   operand — the model (as the Go code) computes (A-A)-(A-A) instead of reporting the unknown column *)
+Example C07_capture :
+  let f := mkFrame [([65%N], ICol [1; 2]%Z)] [0; 1] false in
+  let minus := F2 TInt [(CInt 1, CInt 1, CInt 0); (CInt 2, CInt 2, CInt 0); (CInt 0, CInt 0, CInt 0)]%Z in
+  let cx := [((TInt, true, [45%N]), minus)] in
+  let e := XExpr2 [45%N] (XColCol [45%N] [65%N] [65%N]) (XCol (bs 13 0x636f6c636f6c2d74656d702d30)) in
+  expr_ok f e = false
+  /\ (match abs f with Ok t => denote cx t e | _ => Some None end) = None
+  /\ eval [] cx f [66%N] e = Ok (mkFrame [([65%N], ICol [1; 2]%Z); ([66%N], ICol [0; 0]%Z)] [0; 1] false).
+Proof. vm_compute. repeat split; reflexivity. Qed.
+
+(* why names_ok is a premise: with two columns named A that differ, dropping the temporary (Select by name) replaces
+   the first A by the second *)
+Example C07_repeated_names :
+  let f := mkFrame [([65%N], ICol [1; 2]%Z); ([65%N], ICol [7; 8]%Z)] [0; 1] false in
+  names_ok f = false
+  /\ eval [] [] f [66%N] (XConst (CInt 5))
+     = Ok (mkFrame [([65%N], ICol [7; 8]%Z); ([65%N], ICol [7; 8]%Z); ([66%N], ICol [5; 5]%Z)] [0; 1] false).
+Proof. vm_compute. split; reflexivity. Qed.
+
+(* an illegal destination name ("$x") with a valid tree: Err *)
+Example C07_example_bad_dst :
+  check_name [36%N; 120%N] = false /\ is_col_ref ex_e [36%N; 120%N] = false
+  /\ (exists g, eval [] ex_cx ex_f [36%N; 120%N] ex_e = Ok g /\ ferr g = true).
+Proof. vm_compute. repeat split. eexists. split; reflexivity. Qed.
+
+(* Eval(dst, Col(dst)) returns the frame itself *)
+Example C07_example_self : is_col_ref (XCol [66%N]) [66%N] = true /\ eval [] ex_cx ex_f [66%N] (XCol [66%N]) = Ok ex_f.
+Proof. vm_compute. split; reflexivity. Qed.
+
+(* the first temporary of each kind on a frame without temporaries; premises of C07_temp_name / C07_temp_total *)
+Example C07_example_temp :
+  temp_prefix p_colcol /\ (N.of_nat (length (cols ex_f)) < 10000)%N
+  /\ temp_col_name ex_f p_colcol = Ok (bs 13 0x636f6c636f6c2d74656d702d30)
+  /\ temp_col_name ex_f p_const = Ok (bs 12 0x636f6e73742d74656d702d30).
+Proof. split; [right; right; reflexivity|]. vm_compute. repeat split; reflexivity. Qed.
+
+(* premises of C07_no_temporaries on a frame OUTSIDE the domain of C07_eval (repeated names): still no temporary *)
+Example C07_example_no_temporaries :
+  let f := mkFrame [([65%N], ICol [1; 2]%Z); ([65%N], ICol [7; 8]%Z)] [0; 1] false in
+  exists g, ferr f = false /\ eval [] [] f [66%N] (XConst (CInt 5)) = Ok g /\ ferr g = false
+            /\ col_names g = [[65%N]; [65%N]; [66%N]].
+Proof. eexists. vm_compute. repeat split; reflexivity. Qed.
